@@ -53,9 +53,15 @@ def generate(prop, seed, tier):
     ops = []
     n_ops = S.int(2, 4)
     for k in range(n_ops):
-        op = S.wpick([("transforms", 1), ("pushforward", 2), ("draw", 2), ("cond_sample", 4), ("cond_cdf", 1.5), ("cond_icdf", 2), ("iform", 2.5), ("cache", 0.8), ("cdf_empirical", 0.3 if tier == "thorough" else 0.1), ("skew", 0.7), ("sample_law", 0.8), ("cache_iform_sample", 0.8)])
+        op = S.wpick([("transforms", 1), ("pushforward", 2), ("draw", 2), ("cond_sample", 4), ("cond_cdf", 1.5), ("cond_icdf", 2), ("iform", 2.5), ("cache", 0.8), ("cdf_empirical", 0.3 if tier == "thorough" else 0.1), ("skew", 0.7), ("sample_law", 0.8), ("cache_iform_sample", 0.8), ("cond_sample_small", 0.7), ("empirical_with_sample", 0.7)])
         if op == "sample_law":
             ops.append({"op": "sample_law", "pin": S.sub("slpin", k)})
+            continue
+        if op == "cond_sample_small":
+            ops.append({"op": "cond_sample_small", "dim": 1, "given_q": S.pick([0.3, 0.5, 0.8, 0.95]), "n": S.pick([1, 2, 5]), "reps": 2500, "seed0": S.sub("css", k) % 100000, "pin": S.sub("csp", k)})
+            continue
+        if op == "empirical_with_sample":
+            ops.append({"op": "empirical_with_sample", "n": S.pick([1000, 150000, 250001]), "q": [core.r6(S.uni(0.3, 0.9)), core.r6(S.uni(0.3, 0.9))], "pin": S.sub("ews", k)})
             continue
         if op == "cache_iform_sample":
             # history: the cached sample exists, a contour is computed, the sample is looked at again
@@ -503,6 +509,40 @@ def _execute(prop, scen):
                         dv = np.max(np.abs(np.asarray(c2.coordinates, dtype=float) - xy), axis=0)
                         run.violate("I5-seeded-iform-reproduces", "iform", {"random_state": uni["random_state"], "max_abs_diff_per_coordinate": dv.tolist(), "step": si})
                         return run
+            elif k == "cond_sample_small":
+                # many small requests (n = 1, 2, 5), pooled: each draw must follow the conditional law
+                g = given_value(ref, op["dim"], op["given_q"])
+                ok, c_star, m0 = in_domain(ref, op["dim"], g)
+                if not ok:
+                    run.count("outside_documented_sampler_domain")
+                    continue
+                pooled = []
+                for r_ in range(op["reps"]):
+                    xs_ = np.asarray(api(t.conditional_sample, op["n"], op["dim"], [g], random_state=op["seed0"] + r_), dtype=float)
+                    if len(xs_) != op["n"]:
+                        run.violate("I3-conditional-sample-size", f"dim{op['dim']}/small-n", {"got": len(xs_), "want": op["n"], "step": si})
+                        return run
+                    pooled.append(xs_)
+                pooled = np.concatenate(pooled)
+                run.event(k, [op["dim"], op["given_q"], op["n"], op["reps"]], pooled)
+                d_ = _ks(ref.cond_cdf(pooled, op["dim"], g))
+                run.count("dkw_comparisons")
+                run.count("probe:small-conditional-samples-pooled")
+                if not d_ <= eps_dkw(len(pooled)) + m0:
+                    run.violate("I3-conditional-sample-law", f"dim{op['dim']}/small-n", {"given": g, "n_per_request": op["n"], "requests": op["reps"], "sup_distance": d_, "eps_dkw": eps_dkw(len(pooled)), "designed_away_mass": m0, "step": si})
+                    return run
+            elif k == "empirical_with_sample":
+                smp = np.asarray(api(t.draw_sample, op["n"]), dtype=float)
+                h = float(ref.hs_ppf(op["q"][0]))
+                tz = float(ref.tz_ppf(op["q"][1], h))
+                pts = np.array([[h, tz], [h * 1.3, tz * 1.1]])
+                got = np.asarray(api(t.empirical_cdf, pts, sample=smp), dtype=float)
+                own = np.array([np.mean(np.all(smp <= p_, axis=1)) for p_ in pts])
+                run.event(k, [op["n"], op["q"]], got)
+                run.count("probe:empirical-cdf-with-caller-sample")
+                if not np.allclose(got, own, rtol=0, atol=1e-12):
+                    run.violate("I6-empirical-cdf-of-supplied-sample", "sample-argument", {"n": op["n"], "empirical_cdf": got.tolist(), "proportion_in_sample": own.tolist(), "step": si})
+                    return run
             elif k == "sample_law":
                 smp = np.asarray(api(lambda: t.sample), dtype=float)
                 run.event(k, None, [smp.shape, float(smp[0, 0])])
@@ -610,5 +650,5 @@ def describe(prop):
             "the sampler's documented design is respected: domain (0, 100), joint density below 1e-7 ignored; the designed-away mass m0 is added to every tolerance and conditioning values with m0 > 1 % or support beyond 100 are not judged",
             "DKW at error probability 1e-12 per comparison; tail-coverage bound (F(max)/F(c*))^n < 1e-12",
         ],
-        "probes": ["empirical-cdf-after-refit", "cached-sample-checked-after-other-operations"],
+        "probes": ["empirical-cdf-after-refit", "cached-sample-checked-after-other-operations", "small-conditional-samples-pooled", "empirical-cdf-with-caller-sample"],
     }
